@@ -2,7 +2,7 @@
    non-empty guard and binder lists, numerals and arities in range), provided the tokens themselves carry
    names of the right lexical class (which is what [lex] produces; that last fact is tied by correspondence). *)
 From Coq Require Import List Ascii String ZArith NArith Bool Arith Lia.
-From Anthem Require Import Syntax.Fol Gen.TablesFol Model.FolPrint Model.FolLex Model.FolPratt Model.FolParse Model.FolClass Proofs.FolPrattOk.
+From Anthem Require Import Syntax.Fol Gen.TablesFol Model.FolPrint Model.FolLex Model.FolPratt Model.FolParse Model.FolClass Proofs.FolPrattOk Proofs.FolC15.
 Import ListNotations.
 Open Scope list_scope.
 
@@ -606,3 +606,64 @@ Proof.
   - exact Pl.
   - apply wf_annot_of; assumption.
 Qed.
+
+(* ---------- the lexer only produces names of the right lexical class ---------- *)
+Lemma span_fst_forallb p l : forallb p (fst (span p l)) = true.
+Proof.
+  induction l as [|c l IH]; [reflexivity|]. cbn [span]. destruct (p c) eqn:E; [|reflexivity].
+  destruct (span p l) as [a b]. cbn [fst forallb] in *. rewrite E, IH. reflexivity.
+Qed.
+
+Lemma cons_tok_ok t r ts : tok_ok t = true -> (forall ts', r = Some ts' -> toks_ok ts') -> cons_tok t r = Some ts -> toks_ok ts.
+Proof.
+  intros Ht Hr E. destruct r as [ts'|]; [|discriminate]. injection E as <-. apply toks_ok_cons. split; [exact Ht|apply Hr; reflexivity].
+Qed.
+
+Lemma lex_go_ok fuel : forall l ts, lex_go fuel l = Some ts -> toks_ok ts.
+Proof.
+  induction fuel as [|f IH]; intros l ts E; [discriminate|]. cbn [lex_go] in E.
+  destruct l as [|c r]; [injection E as <-; reflexivity|].
+  assert (W : forall w suf, all_wordchars w = true -> tok_ok (word_tok w suf) = true) by (intros; apply word_tok_ok; assumption).
+  repeat match type of E with
+         | (if ?b then _ else _) = Some _ => destruct b
+         | (let '(_, _) := ?p in _) = Some _ => let a := fresh "a" in let b := fresh "b" in let EP := fresh "EP" in destruct p as [a b] eqn:EP
+         | match ?x with _ => _ end = Some _ => destruct x eqn:?
+         end;
+    try discriminate; try (eapply IH; exact E);
+    try (eapply cons_tok_ok; [|intros ? ?; eapply IH; eassumption|exact E]; try reflexivity).
+  all: try (apply W;
+            match goal with EP : span is_wordchar ?L = (?a, _) |- _ =>
+              pose proof (span_fst_forallb is_wordchar L) as SF; rewrite EP in SF; exact SF end).
+Qed.
+
+Theorem lex_toks_ok s ts : lex s = Some ts -> toks_ok ts.
+Proof. unfold lex. apply lex_go_ok. Qed.
+
+(* C15_image at text level: whatever the model parser (lexer included) accepts is well-formed *)
+Theorem image_theory_str s t : parse_theory_str s = PR_ok t -> wf_theory t = true.
+Proof.
+  unfold parse_theory_str, on_text. destruct (lex s) as [ts|] eqn:EL; [|discriminate].
+  apply image_theory. eapply lex_toks_ok; exact EL.
+Qed.
+Theorem image_spec_str s t : parse_spec_str s = PR_ok t -> wf_spec t = true.
+Proof.
+  unfold parse_spec_str, on_text. destruct (lex s) as [ts|] eqn:EL; [|discriminate].
+  apply image_spec. eapply lex_toks_ok; exact EL.
+Qed.
+Theorem image_ug_str s t : parse_ug_str s = PR_ok t -> wf_ug t = true.
+Proof.
+  unfold parse_ug_str, on_text. destruct (lex s) as [ts|] eqn:EL; [|discriminate].
+  apply image_ug. eapply lex_toks_ok; exact EL.
+Qed.
+
+(* C15 on the image of the parser: a text the parser accepts, printed and read again, gives the same tree
+   (token level for the second reading), outside the two known classes *)
+Corollary parsed_theory_rt s t : parse_theory_str s = PR_ok t -> known_class_theory t = None ->
+  parse_theory_toks (strip (print_theory true t)) = PR_ok t.
+Proof. intros H K. apply C15_theory; [eapply image_theory_str; exact H|exact K]. Qed.
+Corollary parsed_spec_rt s t : parse_spec_str s = PR_ok t -> known_class_spec t = None ->
+  parse_spec_toks (strip (print_spec true t)) = PR_ok t.
+Proof. intros H K. apply C15_spec; [eapply image_spec_str; exact H|exact K]. Qed.
+Corollary parsed_ug_rt s t : parse_ug_str s = PR_ok t -> known_class_ug t = None ->
+  parse_ug_toks (strip (print_ug true t)) = PR_ok t.
+Proof. intros H K. apply C15_ug; [eapply image_ug_str; exact H|exact K]. Qed.
